@@ -72,11 +72,12 @@ func c15SmallConfigs() []cfg.Config {
 			{Name: "p0", Val: cfg.Str(`%todo()%`)},
 			{Name: "p1", Val: cfg.Str(`%p0%-x`)},
 			{Name: "p2", Val: cfg.Str(`%cnt("k2", 5)%`)},
+			{Name: "p3", Val: cfg.Str(`%p0%`)}, // a pure alias of the todo parameter
 		},
 		Services: []cfg.Service{
 			{Name: "s0", Todo: bp(true)},
 			{Name: "s1", Ctor: sp("fx/lib.NewObj"), Args: []cfg.Val{cfg.Str("@s0"), cfg.Str("%p1%")}},
-			{Name: "s2", Ctor: sp("fx/lib.NewObj"), Args: []cfg.Val{cfg.Str("%p0%"), cfg.Str("%p2%")}, Scope: sp("shared")},
+			{Name: "s2", Ctor: sp("fx/lib.NewObj"), Args: []cfg.Val{cfg.Str("%p0%"), cfg.Str("%p2%"), cfg.Str("%p3%")}, Scope: sp("shared")},
 		},
 	}
 	b := cfg.Config{
@@ -104,7 +105,7 @@ func c15Alphabet(i int) []fx.Op {
 		{Op: "overrideService", ID: "s0", Val: &fx.Lit{K: "str", S: "m1"}},
 	}
 	if i == 0 {
-		base = append(base, fx.Op{Op: "param", ID: "p2"})
+		base = append(base, fx.Op{Op: "param", ID: "p2"}, fx.Op{Op: "param", ID: "p3"})
 	} else {
 		base = append(base, fx.Op{Op: "tagged", ID: "t"}, fx.Op{Op: "overrideService", ID: "s1", Val: &fx.Lit{K: "str", S: "m2"}})
 	}
